@@ -1,4 +1,4 @@
-CONSTANTS Strict = FALSE  JudgeEvaluator = FALSE
+CONSTANTS Strict = FALSE  Mode = "direct"
 INIT TraceInit
 NEXT TraceNext
 POSTCONDITION AllConsumed
